@@ -1054,7 +1054,8 @@ Qed.
 Lemma wf_task_emit t : is_task t = true -> wf_prog (task_emit t) = true.
 Proof. intros H. unfold wf_prog, task_emit. cbn [wf_from next_phase]. rewrite H. reflexivity. Qed.
 
-Definition cop_ok (o : cop) : bool := match o with OAppend t _ => is_cont t | _ => true end.
+Definition cop_ok (o : cop) : bool :=
+  match o with OAppend t _ => is_cont t | OTaskEmit t => is_task t | _ => true end.
 
 Lemma wf_prog_of_cop l o : cop_ok o = true -> wf_prog (prog_of_cop l o) = true.
 Proof.
@@ -1064,6 +1065,7 @@ Proof.
   - apply (wf_prog_app [MTarget _; MRead]); [reflexivity|apply wf_lineage; reflexivity].
   - apply (wf_prog_app [MTarget _; MRead]); [reflexivity|apply wf_lineage; reflexivity].
   - reflexivity.
+  - apply wf_task_emit. exact H.
 Qed.
 
 (* the actors of a correspondence case satisfy the hypotheses of the theorem *)
@@ -1138,3 +1140,45 @@ Lemma w_ex_log :
   canon_log (s_log (run w_ex_sched (spawn w_ex_actors empty_state)))
   = [0; 0; 0;  1; 0; 3;  2; 0; 30;  2; 1; 34;  0; 1; 1;  0; 2; 2;  1; 1; 4;  2; 2; 34].
 Proof. vm_compute. reflexivity. Qed.
+
+(* ---------- the task counter (TaskEmitter::emit) ---------- *)
+Definition task_actors (es : list (etype * N)) : list (list mstep * N) :=
+  map (fun e => (task_emit (fst e), snd e)) es.
+
+Lemma task_actors_wf es : Forall (fun e => is_task (fst e) = true) es -> progs_wf (task_actors es).
+Proof.
+  unfold progs_wf, task_actors. induction 1 as [|e l He Hl IH]; cbn [map]; constructor; [|exact IH].
+  cbn [fst]. apply wf_task_emit. exact He.
+Qed.
+Lemma task_actors_sess_fresh st es : sess_fresh st (task_actors es).
+Proof.
+  unfold sess_fresh, task_actors. induction es as [|e l IH]; cbn [map]; constructor; [|exact IH].
+  cbn. intros H. discriminate H.
+Qed.
+Lemma task_actors_no_sess es : Forall (fun y => uses_sess (fst y) = false) (task_actors es).
+Proof. unfold task_actors. induction es as [|e l IH]; cbn [map]; constructor; [reflexivity|exact IH]. Qed.
+Lemma task_actors_sess_distinct es : sess_distinct (task_actors es).
+Proof.
+  unfold task_actors. induction es as [|e l IH]; cbn [map sess_distinct]; [exact I|].
+  split; [|exact IH]. cbn. intros H. discriminate H.
+Qed.
+
+(* any number of emitters (stdout pump, stderr pump, control paths) on any tasks, any schedule *)
+Theorem task_counter_valid es sched st :
+  SInv st -> Forall (fun e => is_task (fst e) = true) es ->
+  Valid (s_log (run sched (spawn (task_actors es) st))).
+Proof.
+  intros S H. apply valid_all_schedules; [exact S|apply task_actors_wf; exact H|
+    apply task_actors_sess_fresh|apply task_actors_sess_distinct].
+Qed.
+
+(* the same call with a guard that ends before the log append (the counter alone is protected) *)
+Definition task_emit_narrow (t : etype) : list mstep :=
+  [MTaskLock; MTaskChoose; MTaskUnlock; MBcast; MTaskAppend t].
+Definition w_task_narrow_actors : list (list mstep * N) :=
+  [(task_emit_narrow EToolTaskOutputDelta, 9); (task_emit_narrow EToolTaskOutputDelta, 9)].
+Definition w_task_narrow_sched : list N := [0; 0; 0; 1; 1; 1; 1; 1; 0; 0].
+Lemma w_task_narrow_invalid :
+  validate (s_log (run w_task_narrow_sched (spawn w_task_narrow_actors empty_state))) = false
+  /\ map seq (s_log (run w_task_narrow_sched (spawn w_task_narrow_actors empty_state))) = [1; 0].
+Proof. vm_compute. split; reflexivity. Qed.
